@@ -160,3 +160,23 @@ Definition spec_slot (outbound : N) (d : dom) : N :=
   outbound * 6
   + (match d with Tcp4 | Tcp6 => 0 | DnsUdp4 | DnsUdp6 => 1 | DataUdp4 | DataUdp6 => 2 end) * 2
   + (match d with Tcp4 | DnsUdp4 | DataUdp4 => 0 | _ => 1 end).
+
+(* A reload, as the property states it (no particular choice of the revived node is prescribed): given the
+   alive flags of the new generation (post), the hand-over is admissible iff
+   - every flag that was alive is still alive, and nodes outside all groups start alive;
+   - a flag that is alive now but was not is justified by the selection floor: the node belongs to a
+     set-keeping group none of whose members was alive for that type;
+   - every non-empty set-keeping group has an alive member for every type. *)
+Definition s_adopt (cfg : config) (old : sstate) (post : N -> dom -> bool) : sstate :=
+  {| s_dom := fun n d => {| sa := post n d; sp := 0; st := 0 |};
+     s_deaths := s_deaths old; s_supp := s_supp old; s_window := s_window old |}.
+Definition floor_justified (cfg : config) (old : sstate) (n : N) (d : dom) : bool :=
+  existsb (fun g => keeps_sets g && existsb (fun m => fst m =? n) (g_members g)
+                    && forallb (fun m => negb (sa (s_dom old (fst m) d))) (g_members g)) (c_groups cfg).
+Definition reload_ok (cfg : config) (nd : nat) (old : sstate) (post : N -> dom -> bool) : bool :=
+  forallb (fun n => forallb (fun d =>
+             let o := sa (s_dom old n d) in
+             let p := post n d in
+             if in_some_group cfg n then implb o p && implb (p && negb o) (floor_justified cfg old n d) else p)
+           all_doms) (map N.of_nat (seq 0 nd))
+  && floor_ok (s_adopt cfg old post) cfg.
